@@ -158,8 +158,15 @@ def run_check(spec, tier='quick', seed=0, replay=None):
                 samples.append({'case': r['case'].name, 'ops': r['case'].lines[:6], 'harness': core.lines_with('O ', r['out_c'])[:3]})
     def run_cases(cases):
         if not hexe or not driver_ok: return
-        with ThreadPoolExecutor(max_workers=int(os.environ.get('VERIF_JOBS', '8'))) as ex:
-            consume(list(ex.map(lambda c: _run_case(spec, hexe, c), cases)))
+        jobs = int(os.environ.get('VERIF_JOBS', '8'))
+        with ThreadPoolExecutor(max_workers=jobs) as ex:
+            # in chunks, so that a tree on which the implementation already fails (or hangs, every case then costing its
+            # time-out) is reported as soon as a failing input is in hand instead of after the whole campaign
+            for i in range(0, len(cases), 2 * jobs):
+                consume(list(ex.map(lambda c: _run_case(spec, hexe, c), cases[i:i + 2 * jobs])))
+                if violations and os.environ.get('VERIF_KEEP_GOING') != '1':
+                    notes.append(f'stopped after {i + 2 * jobs} of {len(cases)} cases of this batch: a failing input was found')
+                    break
     corpus = []
     for p in sorted(glob.glob(os.path.join(core.CORPUS, f'{spec.engine}_*.ops'))) + sorted(glob.glob(os.path.join(core.CORPUS, f'{prop}_*.ops'))):
         corpus.append(Case('corpus_' + os.path.basename(p)[:-4], [l.rstrip('\n') for l in open(p)]))
@@ -170,7 +177,8 @@ def run_check(spec, tier='quick', seed=0, replay=None):
             kf_cases.append(Case('kf_' + k['fields'].get('id', 'x'), [l.rstrip('\n') for l in open(os.path.join(core.ROOT, w))]))
     run_cases(corpus + kf_cases)
     gen_cases = spec.cases(rng, tier)
-    run_cases(gen_cases)
+    if not violations or os.environ.get('VERIF_KEEP_GOING') == '1':
+        run_cases(gen_cases)
     extra = []
     try:
         extra = spec.extra_checks(dict(hexe=hexe, tier=tier, seed=seed, rng=rng, problems=problems, stats=stats)) or []
